@@ -607,6 +607,16 @@ def parseSeq {V : Type} (o : Oracles V) (L : Listener) (steps : List Step) (fiel
 
 def initState : State String := fun _ => "uninit"
 
+/-- `needle` occurs in `hay` as a (not necessarily contiguous) subsequence -/
+def isSubseq : List Step → List Step → Bool
+  | [], _ => true
+  | _ :: _, [] => false
+  | a :: r, b :: hay => if a = b then isSubseq r hay else isSubseq (a :: r) hay
+
+/-- the state of a process that has not parsed yet: empty optional, empty vector, null pointers -/
+def freshState (L : Listener) : State String :=
+  fun f => if f = L.errSlot then demo.none else if f = "comments" then demo.empty else "null"
+
 /-- a second, string-free interpretation small enough for kernel-checked examples: the text `"bad"`
     is the only invalid one (marker 7 travels from the text into every object built from it); an
     error is `9 :: …`, every comment loop appends one 5 -/
